@@ -1,5 +1,5 @@
 //! For every type name a traced registry can contain: the Rust type behind it.
-use super::apps::{kvapp, zoo};
+use super::apps::{kvapp, malapp, zoo};
 use super::arb::Arb;
 use bincode::Options;
 use serde::{de::DeserializeOwned, Serialize};
@@ -82,6 +82,19 @@ pub fn types_of(app: &str) -> Vec<TypeEntry> {
             t!("UnitStruct", zoo::UnitStruct),
             t!("TupleStruct", zoo::TupleStruct),
             t!("Kind", zoo::Kind),
+        ],
+        "malapp" => vec![
+            t!("RenderOperation", crux_core::render::RenderOperation),
+            t!("Request", crux_core::bridge::Request<malapp::EffectFfi>),
+            t!("Effect", malapp::EffectFfi),
+            t!("MalEvent", malapp::MalEvent),
+            t!("MalView", malapp::MalView),
+            t!("Line", malapp::Line),
+            t!("AskOp", malapp::AskOp),
+            t!("WatchOp", malapp::WatchOp),
+            t!("Answer", malapp::Answer),
+            t!("Item", malapp::Item),
+            t!("Tick", malapp::Tick),
         ],
         "protocol" => protocol_types(),
         _ => vec![],
